@@ -166,7 +166,37 @@ func (h *hist) listStep() {
 		p = ls[len(ls)-1-h.r.IntN(min(len(ls), 3))]
 	}
 	item := ref.Int(int64(100 + h.r.IntN(900)))
-	switch h.r.IntN(18) {
+	switch h.r.IntN(20) {
+	case 18, 19:
+		// a cut that asks for more items than there are, behind a stage of unknown length; the first thing that
+		// happens to the result is a comparison
+		if pl, ok := p.ref.(*ref.List); ok {
+			if items, e := h.in.Force(pl); e == nil {
+				n := int64(len(items) + 1 + h.r.IntN(3))
+				cutSrc := []*ref.Node{
+					ref.Method(h0, "accept", ref.Clo([]string{"x"}, ref.Bin("!=", ref.Bin("%", ref.Id("x"), ref.Int(3)), ref.Int(0)))),
+					ref.Method(h0, "skip", ref.Int(1)),
+					ref.Bin("+", h0, ref.ListN()),
+					ref.Method(h0, "compact", ref.Clo([]string{"x", "y"}, ref.Bin("=", ref.Id("x"), ref.Id("y")))),
+				}[h.r.IntN(4)]
+				var nh *handle
+				if h.r.IntN(2) == 0 {
+					nh = h.derive("top-beyond-end", ref.Method(cutSrc, "top", ref.Int(n)), p)
+				} else {
+					nh = h.derive("top-beyond-end-map", ref.Method(ref.Method(cutSrc, "top", ref.Int(n)), "map", ref.Clo([]string{"x"}, ref.Id("x"))), p)
+				}
+				if nh != nil {
+					nh.quiet = 2
+					if nl, ok := nh.ref.(*ref.List); ok {
+						if its, e := h.in.Force(nl); e == nil {
+							lit := &handle{ref: ref.NewList(its...), how: "model literal"}
+							lit.real = toRealPlain(lit.ref)
+							h.derive("equals-unevaluated", ref.ListN(ref.Try(ref.Bin("=", h0, ref.Id("h1")), ref.Str("failed")), ref.Try(ref.Bin("=", ref.Id("h1"), h0), ref.Str("failed")), ref.Method(h0, "size"), ref.Bin("=", h0, ref.Id("h1"))), nh, lit)
+						}
+					}
+				}
+			}
+		}
 	case 16:
 		// windows that are kept: each must stay what it was when the source is read on
 		h.hush(h.derive("combineN", ref.Method(h0, "combineN", ref.Int(int64(1+h.r.IntN(3))), ref.Clo([]string{"w"}, ref.Id("w"))), p))
